@@ -309,6 +309,11 @@ func propC16(w *World, r *Report, tier string) {
 			r.OK("pco.fresh-result")
 		}
 	}
+	// ---- UnMarshal at concrete unit layouts
+	checkPcoShapes(w, r, fu)
+	// ---- Marshal serialises every unit of the list
+	checkSerialiserLoops(w, r, "nasConvert", func(fn *ssa.Function) bool { return SSAFuncName(fn) == FuncName(fm) })
+	r.Expect("seq.all-items", 1)
 	_ = token.NoPos
 }
 
@@ -321,4 +326,166 @@ func joinStr(a []string) string {
 		s += x
 	}
 	return s
+}
+
+// readerModels: bytes.NewReader and binary.Read on a reader at a concrete position (E2).
+func readerModels(it *Interp) {
+	it.Models["bytes.NewReader"] = func(it *Interp, st *state, call *ssa.CallCommon, args []Value) (Value, bool) {
+		sl, ok := args[0].(SliceV)
+		if !ok || sl.Len < 0 {
+			return nil, false
+		}
+		o := it.NewObj(fmt.Sprintf("reader%d", it.nobj+1), false)
+		st.mem[o] = map[string]Value{".data": sl, ".pos": it.constBV(0, 64)}
+		return Ptr{Obj: o}, true
+	}
+	it.Models["encoding/binary.Read"] = func(it *Interp, st *state, call *ssa.CallCommon, args []Value) (Value, bool) {
+		rp, ok := args[0].(Ptr)
+		if !ok {
+			return nil, false
+		}
+		data, ok1 := st.mem[rp.Obj][".data"].(SliceV)
+		pos, ok2 := it.concreteInt(st.mem[rp.Obj][".pos"])
+		if !ok1 || !ok2 {
+			return nil, false
+		}
+		take := func(n int) ([]BV, bool) {
+			if pos+n > data.Len {
+				return nil, false
+			}
+			var out []BV
+			for i := 0; i < n; i++ {
+				b, ok := it.load(st, it.sliceElemPtr(data, pos+i), u8T).(BV)
+				if !ok {
+					return nil, false
+				}
+				out = append(out, b)
+			}
+			st.mem[rp.Obj][".pos"] = it.constBV(uint64(pos+n), 64)
+			return out, true
+		}
+		switch dst := args[2].(type) {
+		case Ptr:
+			// size from the static type of the pointer operand
+			mi, ok := call.Args[2].(*ssa.MakeInterface)
+			if !ok {
+				return nil, false
+			}
+			pt, ok := mi.X.Type().Underlying().(*types.Pointer)
+			if !ok {
+				return nil, false
+			}
+			w, _, ok := typeWidth(pt.Elem())
+			if !ok || w%8 != 0 {
+				return nil, false
+			}
+			bs, ok := take(w / 8)
+			if !ok {
+				return ErrV{it.T.zero}, true // io.EOF / io.ErrUnexpectedEOF
+			}
+			v := BV{W: 0}
+			for _, b := range bs { // big endian: first octet is the most significant
+				v = bvCat(v, b)
+			}
+			it.store(st, dst, v)
+			return NilV{}, true
+		case SliceV:
+			if dst.Len < 0 {
+				return nil, false
+			}
+			bs, ok := take(dst.Len)
+			if !ok {
+				return ErrV{it.T.zero}, true
+			}
+			for i, b := range bs {
+				it.store(st, it.sliceElemPtr(dst, i), b)
+			}
+			return NilV{}, true
+		}
+		return nil, false
+	}
+}
+
+// checkPcoShapes: UnMarshal on inputs with concrete identifier and length octets and symbolic
+// contents returns exactly the units laid out in the octets, in order - including zero-length
+// units in every position.
+func checkPcoShapes(w *World, r *Report, fu *types.Func) {
+	fn := w.SSAFunc(fu)
+	fname := FuncName(fu)
+	for _, shape := range [][]int{{}, {0}, {3}, {0, 0}, {2, 0}, {0, 2}, {4, 0, 1}, {1, 5, 0}} {
+		r.Site("pco.units")
+		it := NewInterp(w)
+		it.Fuel = 100000
+		readerModels(it)
+		st := it.NewState()
+		bo := it.NewObj("data", true)
+		st.mem[bo] = map[string]Value{"[0]": it.constBV(0x80, 8)}
+		off := 1
+		var offs []int
+		for i, l := range shape {
+			offs = append(offs, off)
+			st.mem[bo][fmt.Sprintf("[%d]", off)] = it.constBV(0, 8)
+			st.mem[bo][fmt.Sprintf("[%d]", off+1)] = it.constBV(uint64(0x0d+i), 8)
+			st.mem[bo][fmt.Sprintf("[%d]", off+2)] = it.constBV(uint64(l), 8)
+			off += 3 + l
+		}
+		ro, recv := it.SymbolicObj("pco")
+		st.mem[ro] = map[string]Value{".ProtocolOrContainerList": SliceV{Nil: true, Len: 0}}
+		res := it.Call(fn, []Value{recv, SliceV{Obj: bo, Len: off}}, st, 0)
+		what := fmt.Sprintf("unit content lengths %v", shape)
+		good, why := true, ""
+		if len(it.Unsup) > 0 {
+			good, why = false, fmt.Sprintf("undecided: %v", it.Unsup)
+		}
+		if _, isNil := res.(NilV); good && !isNil {
+			good, why = false, "a well-formed list is rejected"
+		}
+		var list SliceV
+		if good {
+			l, ok := it.load(st, Ptr{Obj: ro, Path: ".ProtocolOrContainerList"}, types.NewSlice(types.Typ[types.Int])).(SliceV)
+			n := l.Len
+			if l.Nil {
+				n = 0
+			}
+			if !ok || n != len(shape) {
+				good, why = false, fmt.Sprintf("%d units returned, the octets hold %d", n, len(shape))
+			}
+			list = l
+		}
+		for i := 0; good && i < len(shape); i++ {
+			up, ok := elemOf(it, st, list, i, nil).(Ptr)
+			if !ok {
+				good, why = false, fmt.Sprintf("unit %d not resolvable", i)
+				break
+			}
+			id := it.load(st, Ptr{Obj: up.Obj, Path: up.Path + ".ProtocolOrContainerID"}, types.Typ[types.Uint16])
+			ln := it.load(st, Ptr{Obj: up.Obj, Path: up.Path + ".LengthOfContents"}, u8T)
+			if ok, m := sameBV(it, id, it.constBV(uint64(0x0d+i), 16)); !ok {
+				good, why = false, fmt.Sprintf("unit %d identifier: %s", i, m)
+				break
+			}
+			if ok, m := sameBV(it, ln, it.constBV(uint64(shape[i]), 8)); !ok {
+				good, why = false, fmt.Sprintf("unit %d length: %s", i, m)
+				break
+			}
+			cs, okc := it.load(st, Ptr{Obj: up.Obj, Path: up.Path + ".Contents"}, types.NewSlice(u8T)).(SliceV)
+			bs, okb := sliceBytes(it, st, cs)
+			if !okc || !okb || len(bs) != shape[i] {
+				good, why = false, fmt.Sprintf("unit %d contents are not %d octets", i, shape[i])
+				break
+			}
+			for k := range bs {
+				if ok, m := sameBV(it, bs[k], it.SrcBV(fmt.Sprintf("data[%d]", offs[i]+3+k), 8)); !ok {
+					good, why = false, fmt.Sprintf("unit %d content octet %d: %s", i, k, m)
+					break
+				}
+			}
+		}
+		if good {
+			r.OK("pco.units")
+		} else {
+			r.Fail("pco.units", fname, what, fu.Pos(), "UnMarshal does not return exactly the units laid out in the input ("+what+"): "+why, nil)
+		}
+	}
+	r.Expect("pco.units", 8)
 }
